@@ -186,6 +186,25 @@ Example c03_write_after_give_back_witness :
   g_ended (gs_outs gs0 (snd (second_run src_tree))) = true.
 Proof. exact witness_write_after_give. Qed.
 
+(* ---- an upstream reset after the response to the client has started ----
+   ([c_late_reset]: the upstream stream layer still delivers a reset of the attempt's stream after it has handed the response over.)
+   downStream.resetStream() marks upstreamProcessDone, resets the client stream and relies on the synchronous OnResetStream callback
+   to finish the request; OnResetStream does not look at upstreamProcessDone (read from the source on this run - only
+   proxy.onDownstreamEvent does, for the streams of a closing connection): the client stream is reset and the stream cleaned once.
+   With the test inside OnResetStream (switch set) the request never reaches a terminal outcome: *)
+Theorem c03_reset_callback_does_not_test_process_done : on_reset_checks_done proxy_src = false.
+Proof. exact (eq_refl false). Qed.
+Example c03_reset_mid_response :
+  trace src_reset_checks_done cfg_late_reset sched_reset_mid_response =
+    [OChoose; OUpNew 0 PoolOk; OUpHdr 0 true 1; ODownHdr false KUp 200; ODownReset] /\
+  cleaned (final src_reset_checks_done cfg_late_reset sched_reset_mid_response) = false /\
+  quiescent (final src_reset_checks_done cfg_late_reset sched_reset_mid_response) = true /\
+  no_defect_flags (final src_reset_checks_done cfg_late_reset sched_reset_mid_response) = true /\
+  trace src_tree cfg_late_reset sched_reset_mid_response =
+    [OChoose; OUpNew 0 PoolOk; OUpHdr 0 true 1; ODownHdr false KUp 200; ODownReset; OGauge (-1); OLog; ODestroy] /\
+  cleaned (final src_tree cfg_late_reset sched_reset_mid_response) = true.
+Proof. exact witness_reset_mid_response. Qed.
+
 (* ---- time-out liveness ---- *)
 (* a parked worker is always guarded by an armed timer (so a silent upstream cannot hang the request) ... *)
 Theorem c03_timeout_guard_family : forall c, In c family -> forall sched, Forall allowed sched ->
